@@ -3,6 +3,14 @@
 import json
 TX_NOTE = "Trusted: SimNet (stream-level model of one QUIC connection, semantics in DESIGN.md 2.4) instead of quic-go; the app shell around the engines is a stub (sender closes with code 0 on return, receiver exits without closing); the go/ast yield generator; testing/synctest; one fake clock for both nodes."
 checks = {
+ "C14": dict(level="exploration", design="3/C14",
+   text="The real thruserv main() runs as a node over simulated TCP on a fake clock. Scenarios per run: join-code lifetime probed 1 ms before and after expiry for lifetimes from 1 s to 24 h, and around the host's disconnect; uniqueness of join codes among 20-50 live sessions with the code random source reduced to 256 values; concurrent bursts of session creations, receivers of one host and WebSocket connections against limits 1-3 and against 0 (disabled: every request must pass); message sizes around --max-message-bytes and message bursts against the per-connection token bucket. Oracle: a code admits exactly while its session lives; limits are never exceeded also under the interleavings the scheduler produces; 0 means no limit.",
+   note="net/http and gorilla/websocket are real but not instrumented (they run freely between two scheduler events); SimTCP replaces the kernel; crypto/rand.Reader is a seeded reader. 0 = unlimited is checked only for the flags documented that way (--max-sessions, --max-receivers-per-sender, --max-ws-connections).",
+   technique="deterministic simulation: real server main over simulated TCP with fake clock, seeded schedules, concurrent request bursts"),
+ "C16": dict(level="exploration", design="3/C16",
+   text="One server configuration per run is drawn from the grid {12 limit/timeout flags x (default, small, 0)} x TURN off / 1-2 TURN URLs in 8 spellings with secrets containing URL-significant characters, with peer ids containing URL-significant characters; the real clienthttp.CreateSession, buildWebSocketURL, wsclient.Dial and ReadLoop run for both roles against the real server main over simulated TCP, and the TURN credentials the server pushes are parsed with the client's parseTurnServer and compared with the user, secret and endpoint the configured secret and URL mean. No faults.",
+   note="What the simulator adds here is running the real server and clients as nodes of one process over SimTCP with a per-run configuration and a fake clock for the timeouts; the TURN URL agreement itself is a pure function pair that rides along. net/http and gorilla are real but not instrumented.",
+   technique="deterministic simulation of server and clients over simulated TCP, swarm over server configurations"),
  "C08": dict(level="fault_enumeration", design="3/C08",
    text="The real authenticateTransport runs at the honest ends over simulated sessions whose exporter gives both ends of one session the same keying material and different sessions different material. Scenarios: honest pairs with equal / different / empty / prefix codes; every single-bit flip and every truncation of either 50-byte authentication message (the 900 alterations are walked systematically by run index); an attacker without the code relaying, replaying proofs captured from an earlier session, or reflecting between two sessions; rogue dialers and listeners that follow the protocol with a drawn code (the right one as positive control), replay, reflect, swap roles, send random proofs or stay silent; all under seeded segmentation and schedules. Oracle: an honest end accepts iff its peer is the other honest end of the same session holding the same code and the message it received is unaltered; every honest end returns within its 10 s timeout.",
    note="The TLS exporter is a stub (real exporter values and real QUIC sessions are not exercised by this check), HMAC-SHA256 is trusted. The clause 'no manifest or file byte before authentication' is NOT decided: runICEQUICTransfer, runTransfer and acceptExtraConns cannot run in the simulator, and in the harness the order is the harness's own.",
